@@ -820,6 +820,23 @@ func (c *Ctx) evalCall(env *CEnv, e *ast.CallExpr) CVal {
 			r := refOf(c.evalExpr(env, e.Args[1]))
 			h := c.heapGet(env.state(), "ghost.const."+constant.StringVal(nm.K), BV64)
 			return CVal{V: Sc{fmt.Sprintf("(select %s %s)", h, r), BV64}, T: tInt}
+		case "gfun":
+			// gfun("name", obj, a, b, ...): an uninterpreted, immutable ghost function (64-bit result) of the object behind obj
+			// and further integer arguments - e.g. the colour channel of an image at (x, y); never havocked
+			nm := c.evalExpr(env, e.Args[0])
+			if nm.K == nil || nm.K.Kind() != constant.String {
+				cerr("gfun: function name string expected")
+			}
+			r := refOf(c.evalExpr(env, e.Args[1]))
+			args := []string{r}
+			sorts := []string{"Int"}
+			for _, a := range e.Args[2:] {
+				args = append(args, c.toBV64(c.evalExpr(env, a)))
+				sorts = append(sorts, BV64)
+			}
+			fn := fmt.Sprintf("gfun_%s_%d", sanitizeSym(constant.StringVal(nm.K)), len(args))
+			c.declareOnce(fmt.Sprintf("(declare-fun %s (%s) %s)", fn, strings.Join(sorts, " "), BV64))
+			return CVal{V: Sc{fmt.Sprintf("(%s %s)", fn, strings.Join(args, " ")), BV64}, T: tInt}
 		case "enumParse":
 			// enumParse(text, v, dflt, "n1", k1, "n2", k2, ...): text equal to a listed name parses to its value, any other text to dflt
 			if len(e.Args) < 3 || len(e.Args)%2 != 1 {
